@@ -240,6 +240,95 @@ Definition run_selection_pool (W : world) (n : nat) (behemoths smaller leafless 
   sel_loop (S (2 * np)) (pool_fuel W (S (list_max (behemoths ++ smaller)))) W n np behemoths smaller leafless
            {| ss_started := []; ss_completed := []; ss_running := []; ss_clock := 0 |}.
 
+(* ---- the six parallel stages as sequences of phases.  A phase = effects done by the
+   parent before a pool, then the pool.  A stage continues with the next phase only
+   after a clean drain (the inspector raised otherwise and nothing catches it inside
+   the stage).  `SComplete` is the one effect after which a LATER STAGE ACCEPTS what is
+   at the requested output location (or, for the stages that return an object, the
+   return itself):
+
+     statistics   precompute_summary_stats_from_h5ad_and_tree:
+                    mkdtemp; [pool]; create output + merged sums (SPayload);
+                    finally: _clean_up(tmp_dir); then the `taxonomy_tree` dataset (SComplete)
+     markers      find_markers_for_all_taxonomy_pairs:
+                    mkdtemp, scratch output file; [pool of pair chunks]; merge (scratch);
+                    [transposition pool `up`]; [transposition pool `down`];
+                    shutil.move into place (SComplete); _clean_up (not in a finally)
+     p-value mask create_p_value_mask_file:
+                    mkdtemp; _prep_output_file(dst_path) (SSkeleton: no data/indices/indptr);
+                    [pool]; _merge_masks writes data/indices/indptr (SComplete); finally clean
+     selection    select_all_markers: [pool]; return dict(output_dict) (SComplete)
+     transposition transpose_sparse_matrix_on_disk_v2:
+                    mkdtemp; [pool]; create + fill the datasets at output_path (SComplete);
+                    finally clean
+     mapping      run_type_assignment_on_h5ad_cpu:
+                    mkdtemp buffer; [pool]; gather, clean buffer, return (SComplete)  *)
+Inductive seff := SScratch | SSkeleton | SPayload | SComplete | SCleanScratch.
+
+Definition seff_eqb (a b : seff) : bool :=
+  match a, b with
+  | SScratch, SScratch | SSkeleton, SSkeleton | SPayload, SPayload
+  | SComplete, SComplete | SCleanScratch, SCleanScratch => true
+  | _, _ => false
+  end.
+
+Record stage_desc := {
+  sd_phases : list (list seff);    (* effects before each pool *)
+  sd_post : list seff;             (* after the last clean drain, inside the try *)
+  sd_finally : list seff;          (* always *)
+  sd_after : list seff             (* after the finally, only when nothing raised *)
+}.
+
+Fixpoint run_phases (phs : list (list seff)) (pools : list pres) : list seff * bool :=
+  match phs with
+  | [] => ([], true)
+  | pre :: rest =>
+      match pools with
+      | POk :: rs => let x := run_phases rest rs in (pre ++ fst x, snd x)
+      | _ => (pre, false)          (* raised / hung / no verdict: the stage does not go on *)
+      end
+  end.
+
+(* `clean_ok` is an oracle: when the inspector raised, the sibling workers are still
+   running and still write into the scratch directory that the `finally` block removes
+   (utils._clean_up: iterdir, unlink, rmdir); the removal can therefore fail, and the
+   exception of the finally block then replaces the inspector's RuntimeError. *)
+Inductive raised_by := ENone | EInspector | ECleanup.
+
+Definition run_stage_desc_c (s : stage_desc) (pools : list pres) (clean_ok : bool)
+  : list seff * bool * raised_by :=
+  let x := run_phases (sd_phases s) pools in
+  if snd x then (fst x ++ sd_post s ++ sd_finally s ++ sd_after s, true, ENone)
+  else if clean_ok then (fst x ++ sd_finally s, false, EInspector)
+  else (fst x ++ filter (fun e => negb (seff_eqb SCleanScratch e)) (sd_finally s), false,
+        if existsb (seff_eqb SCleanScratch) (sd_finally s) then ECleanup else EInspector).
+
+Definition run_stage_desc (s : stage_desc) (pools : list pres) : list seff * bool :=
+  fst (run_stage_desc_c s pools true).
+
+Definition stats_stage : stage_desc :=
+  {| sd_phases := [[SScratch]]; sd_post := [SPayload]; sd_finally := [SCleanScratch]; sd_after := [SComplete] |}.
+Definition markers_stage : stage_desc :=
+  {| sd_phases := [[SScratch]; [SScratch]; [SScratch]]; sd_post := [SComplete; SCleanScratch];
+     sd_finally := []; sd_after := [] |}.
+Definition pmask_stage : stage_desc :=
+  {| sd_phases := [[SScratch; SSkeleton]]; sd_post := [SComplete]; sd_finally := [SCleanScratch]; sd_after := [] |}.
+Definition selection_stage : stage_desc :=
+  {| sd_phases := [[]]; sd_post := [SComplete]; sd_finally := []; sd_after := [] |}.
+Definition transpose_stage : stage_desc :=
+  {| sd_phases := [[SScratch]]; sd_post := [SComplete]; sd_finally := [SCleanScratch]; sd_after := [] |}.
+Definition mapping_stage : stage_desc :=
+  {| sd_phases := [[SScratch]]; sd_post := [SCleanScratch; SComplete]; sd_finally := []; sd_after := [] |}.
+
+Definition all_stages : list stage_desc :=
+  [mapping_stage; stats_stage; markers_stage; pmask_stage; selection_stage; transpose_stage].
+
+(* a pool of a phase: which inspector, the world, the bound, the number of workers *)
+Definition pool_spec := (bool * world * nat * nat)%type.
+Definition pool_result (p : pool_spec) : pres :=
+  let '(variant, W, n, k) := p in
+  fst (if variant then run_pool_dict W n k else run_pool_list W n k).
+
 (* ------------------------------------------------------------------ wire *)
 Definition nth_Z (l : list Z) (i : nat) : Z := nth i l 0%Z.
 Definition nth_N (l : list nat) (i : nat) : nat := nth i l O.
@@ -294,6 +383,28 @@ Definition run_selection_sx (x : sx) : sx :=
           let r := run_selection_pool W n bs ss ls in
           sx_ok (L [of_pres (fst r); of_Lnat (ss_started (snd r)); of_Lnat (ss_completed (snd r))])
       | _, _, _, _, _, _ => sx_bad
+      end
+  | _ => sx_bad
+  end.
+
+Definition seff_tag (e : seff) : Z :=
+  match e with SScratch => 0 | SSkeleton => 1 | SPayload => 2 | SComplete => 3 | SCleanScratch => 4 end%Z.
+
+(* input: (stage index in all_stages, (pool verdict ...), clean_ok) with verdict 0 = clean
+   drain, anything else = raised.  output: (effect tags, completed, 0 none | 1 inspector | 2 cleanup) *)
+Definition run_stage_desc_sx (x : sx) : sx :=
+  match x with
+  | L [i; rs; ck] =>
+      match sx_nat i, sx_LZ rs, sx_bool ck with
+      | Some i, Some rs, Some ck =>
+          match nth_error all_stages i with
+          | Some s =>
+              let o := run_stage_desc_c s (map (fun r => if (r =? 0)%Z then POk else PRaised 0 r) rs) ck in
+              sx_ok (L [of_LZ (map seff_tag (fst (fst o))); of_bool (snd (fst o));
+                        I (match snd o with ENone => 0 | EInspector => 1 | ECleanup => 2 end)%Z])
+          | None => sx_bad
+          end
+      | _, _, _ => sx_bad
       end
   | _ => sx_bad
   end.
